@@ -1,6 +1,7 @@
 package typed
 
 import (
+	"bytes"
 	"encoding/binary"
 	"errors"
 	"fmt"
@@ -98,6 +99,109 @@ func newStore(s *simrt.Sim, f *faults) *faultkv.Store {
 	return st
 }
 
+// tvAPI is what the sequential harness drives: a TypedValue over uint64 (a value type with a fixed-width encoding) or,
+// in the "ref" configuration, over *cell - a reference type whose compute functions update the object they were handed
+// in place (the common idiom) and whose value 0 encodes to zero bytes.
+type tvAPI struct {
+	Get     func() (uint64, error)
+	Has     func() (bool, error)
+	Set     func(uint64) error
+	Delete  func() error
+	Compute func(mode int, arg uint64) (got, seenCur uint64, seenEx bool, err error) // mode 4 new value, 5 not changed, 6 own error
+}
+
+func u64Value(st *faultkv.Store, f *faults) *tvAPI {
+	tv := kvstore.NewTypedValue[uint64](st, vkey, enc64(f, "value"), dec64(f, "value"))
+	return &tvAPI{Get: tv.Get, Has: tv.Has, Set: tv.Set, Delete: tv.Delete,
+		Compute: func(mode int, arg uint64) (got, seenCur uint64, seenEx bool, err error) {
+			got, err = tv.Compute(func(cur uint64, exists bool) (uint64, error) {
+				seenCur, seenEx = cur, exists
+				switch mode {
+				case 5:
+					return arg, kvstore.ErrTypedValueNotChanged
+				case 6:
+					return arg, errCompute
+				}
+				return arg, nil
+			})
+			return
+		}}
+}
+
+type cell struct{ n uint64 }
+
+func cellBytes(n uint64) []byte {
+	if n == 0 {
+		return []byte{}
+	}
+	var b [8]byte
+	binary.LittleEndian.PutUint64(b[:], n)
+	return b[:]
+}
+
+const nilCell = ^uint64(0)
+
+func cellN(c *cell) uint64 {
+	if c == nil {
+		return nilCell
+	}
+	return c.n
+}
+
+func refValue(st *faultkv.Store, f *faults) *tvAPI {
+	tv := kvstore.NewTypedValue[*cell](st, vkey,
+		func(c *cell) ([]byte, error) {
+			if f.hit("value-encode-fails") {
+				return nil, errCodec
+			}
+			if c == nil {
+				return nil, errors.New("nil value")
+			}
+			return cellBytes(c.n), nil
+		},
+		func(b []byte) (*cell, int, error) {
+			if f.hit("value-decode-fails") {
+				return nil, 0, errCodec
+			}
+			switch len(b) {
+			case 0:
+				return &cell{}, 0, nil
+			case 8:
+				return &cell{n: binary.LittleEndian.Uint64(b)}, 8, nil
+			}
+			return nil, 0, fmt.Errorf("stored bytes have length %d, not 0 or 8", len(b))
+		})
+	return &tvAPI{
+		Get:    func() (uint64, error) { c, err := tv.Get(); return cellN(c), err },
+		Has:    tv.Has,
+		Set:    func(v uint64) error { return tv.Set(&cell{n: v}) },
+		Delete: tv.Delete,
+		Compute: func(mode int, arg uint64) (got, seenCur uint64, seenEx bool, err error) {
+			var c *cell
+			c, err = tv.Compute(func(cur *cell, exists bool) (*cell, error) {
+				seenEx = exists
+				if cur != nil {
+					seenCur = cur.n
+				}
+				switch mode {
+				case 5:
+					return cur, kvstore.ErrTypedValueNotChanged
+				case 6:
+					if cur != nil {
+						cur.n = arg // scribbles on what it was handed, then gives up: the failure must leave store and cache unchanged
+					}
+					return cur, errCompute
+				}
+				if cur != nil {
+					cur.n = arg // updates the object in place and hands it back
+					return cur, nil
+				}
+				return &cell{n: arg}, nil
+			})
+			return cellN(c), seenCur, seenEx, err
+		}}
+}
+
 // ---------------------------------------------------------------------------------------------
 // TypedValue, sequential, every fault position
 
@@ -113,10 +217,21 @@ var vkey = []byte("tv")
 func runValue(s *simrt.Sim, ops []vop, failAt int, fresh []bool) (sites int) {
 	f := &faults{s: s, failAt: failAt}
 	st := newStore(s, f)
-	mk := func() *kvstore.TypedValue[uint64] {
-		return kvstore.NewTypedValue[uint64](st, vkey, enc64(f, "value"), dec64(f, "value"))
+	mk := func() *tvAPI {
+		if simrt.ConfigHas("ref") {
+			return refValue(st, f)
+		}
+		return u64Value(st, f)
 	}
 	tv := mk()
+	encoded := func(v uint64) []byte {
+		if simrt.ConfigHas("ref") {
+			return cellBytes(v)
+		}
+		var b [8]byte
+		binary.LittleEndian.PutUint64(b[:], v)
+		return b[:]
+	}
 	present, val := false, uint64(0)
 	tag := ""
 	if failAt >= 0 {
@@ -147,10 +262,7 @@ func runValue(s *simrt.Sim, ops []vop, failAt int, fresh []bool) (sites int) {
 		case 4:
 			var seenCur uint64
 			var seenEx bool
-			got, err = tv.Compute(func(cur uint64, exists bool) (uint64, error) {
-				seenCur, seenEx = cur, exists
-				return op.arg, nil
-			})
+			got, seenCur, seenEx, err = tv.Compute(4, op.arg)
 			if err == nil || !f.hitOp {
 				if (err == nil || seenEx || seenCur != 0) && (seenEx != present || (present && seenCur != val)) {
 					s.Fail("model", "Compute-sees-wrong-current"+tag, "op %d Compute: function saw (%d,%v) but the value is (%d,%v)", i, seenCur, seenEx, val, present)
@@ -158,9 +270,9 @@ func runValue(s *simrt.Sim, ops []vop, failAt int, fresh []bool) (sites int) {
 			}
 			wantPresent, wantVal = true, op.arg
 		case 5:
-			got, err = tv.Compute(func(cur uint64, exists bool) (uint64, error) { return 77, kvstore.ErrTypedValueNotChanged })
+			got, _, _, err = tv.Compute(5, 77)
 		case 6:
-			got, err = tv.Compute(func(cur uint64, exists bool) (uint64, error) { return 78, errCompute })
+			got, _, _, err = tv.Compute(6, 78)
 		}
 		s.Logf("op %d %s(%d) -> %d %v err=%v", i, name, op.arg, got, gotHas, err)
 		if f.hitOp {
@@ -204,7 +316,7 @@ func runValue(s *simrt.Sim, ops []vop, failAt int, fresh []bool) (sites int) {
 		}
 		// stored bytes are always the encoding of the last successfully written value
 		raw, ok := st.Raw(vkey)
-		if ok != present || (present && (len(raw) != 8 || binary.LittleEndian.Uint64(raw) != val)) {
+		if ok != present || (present && !bytes.Equal(raw, encoded(val))) {
 			s.Fail("stored-bytes", "after-"+name+tag, "after op %d %s (err=%v): store holds %v (present=%v) but the last successfully written value is %d (present=%v)", i, name, err, raw, ok, val, present)
 		}
 	}
@@ -229,6 +341,9 @@ func valueSeq(s *simrt.Sim) {
 		ops[i].kind = s.Weighted(3, 2, 3, 2, 3, 1, 1)
 		next++
 		ops[i].arg = next
+		if simrt.ConfigHas("ref") && s.Choose(4) == 0 {
+			ops[i].arg = 0 // encodes to zero bytes: a present key with an empty value
+		}
 		fresh[i] = s.Choose(6) == 5
 	}
 	var d []string
